@@ -1,6 +1,7 @@
 //! vfy — property-based verification harness for txtpp (see /verif/DESIGN.md)
 #![allow(dead_code)]
 pub mod child;
+pub mod confine;
 pub mod ctl;
 pub mod fsx;
 pub mod gen;
